@@ -502,6 +502,13 @@ def execute(history):
     last_call = None
     held = None
     held2 = {}
+    earlier = []      # results returned by earlier calls that the caller has not touched: (event index, object, value then)
+
+    def earlier_changed():
+        for k, o, v in earlier:
+            if sers(o) != v:
+                return "the object returned by event %d (%s:%s) changed during a later call" % (k + 1, history[k][0], history[k][1])
+        return None
     for kind, name in history:
         if kind == "ocall":
             which, fn = HELD2_CALLS[name]
@@ -518,7 +525,9 @@ def execute(history):
             except Exception as ex:      # noqa: BLE001
                 res = ex
             after = value_sers(obj)
-            obs.append({"ref": "@" + name + "|" + val, "result": sers(res), "args_before": before, "args_after": after})
+            obs.append({"ref": "@" + name + "|" + val, "result": sers(res), "args_before": before, "args_after": after, "earlier": earlier_changed()})
+            if not isinstance(res, BaseException):
+                earlier.append((len(obs) - 1, res, sers(res)))
             last_result, last_args, last_call = res, None, name
         elif kind == "call":
             make, fn = CALLS[name]
@@ -529,7 +538,9 @@ def execute(history):
             except Exception as ex:      # noqa: BLE001
                 res = ex
             after = value_sers(args)
-            obs.append({"ref": name, "result": sers(res), "args_before": before, "args_after": after})
+            obs.append({"ref": name, "result": sers(res), "args_before": before, "args_after": after, "earlier": earlier_changed()})
+            if not isinstance(res, BaseException):
+                earlier.append((len(obs) - 1, res, sers(res)))
             last_result, last_args, last_call = res, args, name
         elif kind == "hcall":
             if held is None:
@@ -541,19 +552,24 @@ def execute(history):
             except Exception as ex:      # noqa: BLE001
                 res = ex
             after = value_sers(held)
-            obs.append({"ref": name + "|" + vals, "result": sers(res), "args_before": before, "args_after": after})
+            obs.append({"ref": name + "|" + vals, "result": sers(res), "args_before": before, "args_after": after, "earlier": earlier_changed()})
+            if not isinstance(res, BaseException):
+                earlier.append((len(obs) - 1, res, sers(res)))
             last_result, last_args, last_call = res, (held,), name
         elif kind == "mut_result":
             if last_result is not None and not isinstance(last_result, BaseException):
                 mutate(last_result, name)
+            earlier = [(k, o, sers(o)) for k, o, v in earlier]      # caller-side changes are not the library's doing
             obs.append(None)
         elif kind == "mut_args":
             if last_args is not None and not (len(last_args) == 1 and last_args[0] is held):
                 mutate(last_args, name)
+            earlier = [(k, o, sers(o)) for k, o, v in earlier]
             obs.append(None)
         elif kind == "mut_held":
             if held is not None:
                 mutate_held(held, name)
+            earlier = [(k, o, sers(o)) for k, o, v in earlier]
             obs.append(None)
         elif kind == "clear":
             clear_caches(lib)
